@@ -212,6 +212,12 @@ def OPS(E):
         out += [r.c('async_add 0 0 sign %s 3 t2' % R.H(1, b'second').hex()).get('rc')]
         return out + sorted(r.pump_async(8))
 
+    def async_grow_cache(r):
+        # the request cache of a live service is enlarged (the one option setter that allocates), then used beyond its old size
+        out = [r.c('async_opt 0 cache_size 12').get('rc')]
+        out += [r.c('async_add 0 0 sign %s 0 t%d' % (R.H(1, b'grow/%d' % i).hex(), i)).get('rc') for i in range(6)]
+        return out + sorted(r.pump_async(10))
+
     def with_async_ext(r):
         with_async('extend')(r)
         r.c('sigparse 0 0 empty ' + E.sig_hex)
@@ -256,6 +262,7 @@ def OPS(E):
         'async_conf_tcp': (with_async('sign'), async_conf),
         'async_extend_signature': (with_async_ext, async_extend_signature),
         'async_signing_handle': (with_async('sign'), async_signing_handle),
+        'async_grow_cache': (with_async('sign'), async_grow_cache),
         'async_sign_with_conf': (with_async('sign'), async_sign_with_conf),
         'ha_sign': (with_async('hasign', 'ksi+tcp://b.example:1'), async_sign),
         'blocksign': (with_net, one('blocksign 0 5 1 1 7', ('rc', 'nsig'))),
